@@ -130,9 +130,9 @@ pub fn cmd_worker(args: &[String]) -> i32 {
         if mode == "hash" {
             let _ = writeln!(out, "HASH\t{}\t{:016x}", i, c.out.log_hash ^ c.out.end_state_hash);
         }
-        if samples.len() < 2 && i % 7 == 0 {
+        if samples.len() < 3 {
             for smp in &c.out.samples {
-                if samples.len() < 2 {
+                if samples.len() < 3 && !samples.contains(smp) {
                     samples.push(smp.clone());
                 }
             }
